@@ -157,6 +157,7 @@ type Exec struct {
 	iterSources map[int]*iterSource
 	iterOf      map[*Term]int
 	nIter    int
+	noGhost  bool // option noghost: injected ghost statements are skipped
 	cellType map[int]types.Type
 	cellName map[int]string
 	fresh0   int // cells with id > fresh0 were allocated during the run
@@ -2333,6 +2334,11 @@ func (x *Exec) bitSum(v *Term, k int) *Term {
 }
 
 func (x *Exec) toInt(v *Term) *Term {
+	if v.Sort.Kind == KBV {
+		if m, ok := v.BVVal(); ok && m <= 1<<62 {
+			return x.c.IntLit(int64(m)) // a literal: no conversion term
+		}
+	}
 	if v.Sort.Kind == KBV && v.Sort.Width > 8 && v.Op != "bvand" {
 		// a value known (path condition) to be small: the weighted sum of its low bits
 		if _, hi, _, okHi := x.knownRange(v); okHi && hi >= 0 && hi < 256 {
